@@ -3,8 +3,11 @@ package harness
 // Generators shared between properties.  All randomness comes from rapid draws.
 
 import (
+	"bytes"
 	"fmt"
 	"github.com/gcash/bchd/wire"
+	"github.com/gcash/bchutil"
+	"github.com/gcash/bchutil/hdkeychain"
 	"math/big"
 	"sync"
 
@@ -84,7 +87,8 @@ var nets = []netInfo{
 //     with nothing;
 //   - C02: that one (as "custc") and two whose legacy version bytes collide crosswise: 0xa1 is P2PKH on
 //     one and P2SH on the other, 0xa2 the other way round - a legacy string with such a byte cannot be
-//     attributed to one kind and must not be accepted as either.
+//     attributed to one kind and must not be accepted as either - and one ("custd") that collides with a
+//     standard network in the same way.
 var setupOnce sync.Once
 
 func setupProp(prop string) (err error) {
@@ -101,10 +105,18 @@ func setupProp(prop string) (err error) {
 		case "C02":
 			add = []*chaincfg.Params{mk("custa", 0xa1a1a1a1, "bchcusta", "slpcusta", 0xa1, 0xa2, 0xa3, 0x0a),
 				mk("custb", 0xb2b2b2b2, "bchcustb", "slpcustb", 0xa2, 0xa1, 0xa4, 0x0b),
-				mk("custc", 0xc3c3c3c3, "bchcustc", "slpcustc", 0xb1, 0xb2, 0xb3, 0x0c)}
+				mk("custc", 0xc3c3c3c3, "bchcustc", "slpcustc", 0xb1, 0xb2, 0xb3, 0x0c),
+				// its P2PKH byte is testnet's P2SH byte: registered after the library has been used, it turns
+				// every legacy string with that byte into a collision
+				mk("custd", 0xd6d6d6d6, "bchcustd", "slpcustd", 0xc4, 0xb4, 0xb5, 0x0f)}
 		case "C04", "C05", "C06", "C15":
-			add = []*chaincfg.Params{mk("latenet", 0xd4d4d4d4, "bchlate", "slplate", 0xd1, 0xd2, 0xd3, 0x0d)}
+			// the second one has 0x00 as its WIF identifier: zero is a value, not "unset"
+			add = []*chaincfg.Params{mk("latenet", 0xd4d4d4d4, "bchlate", "slplate", 0xd1, 0xd2, 0xd3, 0x0d),
+				mk("zeronet", 0xe5e5e5e5, "bchzero", "slpzero", 0xd5, 0xd6, 0x00, 0x0e)}
 		}
+		// The library is used before the further networks exist: whatever it tabulates on first use must not
+		// make it blind to networks registered later.
+		warmUp()
 		for _, n := range add {
 			if e := chaincfg.Register(n); e != nil {
 				err = fmt.Errorf("cannot register network %s: %v", n.Name, e)
@@ -117,6 +129,38 @@ func setupProp(prop string) (err error) {
 		}
 	})
 	return err
+}
+
+func warmUp() {
+	main := &chaincfg.MainNetParams
+	h := bytes.Repeat([]byte{0x42}, 20)
+	strs := []string{"02192d74d0cb94344c9569c2e77901573d8d7903c3ebec3a957724895dca52c6b4"}
+	for _, n := range nets {
+		strs = append(strs, refB58CheckEncode(h, n.Params.LegacyPubKeyHashAddrID), refB58CheckEncode(h, n.Params.LegacyScriptHashAddrID),
+			refCashEncode(n.Params.CashAddressPrefix, 0, h), n.Params.CashAddressPrefix+":"+refCashEncode(n.Params.CashAddressPrefix, 1, h))
+	}
+	decoded := 0
+	for _, s := range strs {
+		for _, n := range nets {
+			if a, err := bchutil.DecodeAddress(s, n.Params); err == nil {
+				a.IsForNet(main)
+				a.EncodeAddress()
+				decoded++
+			}
+		}
+	}
+	if decoded < 12 {
+		panic("warm-up: the valid strings built for it do not decode")
+	}
+	bchutil.DecodeWIF(refWIFEncode(main.PrivateKeyID, bytes.Repeat([]byte{3}, 32), true))
+	if k, err := hdkeychain.NewMaster(bytes.Repeat([]byte{7}, 32), main); err == nil {
+		k.Neuter()
+		k.String()
+		if c, err := k.Child(1); err == nil {
+			c.Address(main)
+		}
+		hdkeychain.NewKeyFromString(k.String())
+	}
 }
 
 // The network parameters are global, shared data that the library reads (and hands out slices of).  Their
